@@ -157,7 +157,7 @@ theorem filter_split_next {l r : List Point} {p : Point}
   rw [e1, e2]
   cases eq <;> simp
 
-theorem iterPrev_spec {s : Part} (h : Good s) {t : Int} (ht : 0 ≤ t) (cls : Option Nat) (eq incl : Bool) :
+theorem iterPrev_spec' {s : Part} (hs0 : s.times.Pairwise (· < ·)) (hl0 : LinksFrom none s.points) {t : Int} (ht : 0 ≤ t) (cls : Option Nat) (eq incl : Bool) :
     iterLinks s (·.prev) t cls eq incl
       = .ok (if t ∈ s.times then
           .objs ((prevPoints s.points t eq).flatMap fun p => iterReg p.starting cls incl)
@@ -166,9 +166,9 @@ theorem iterPrev_spec {s : Part} (h : Good s) {t : Int} (ht : 0 ≤ t) (cls : Op
   unfold iterLinks
   simp only [hneg, if_false]
   by_cases hmem : t ∈ s.times
-  · obtain ⟨l, p, r, hsplit, hpt, -, -⟩ := split_at_time h.1.sorted hmem
+  · obtain ⟨l, p, r, hsplit, hpt, -, -⟩ := split_at_time hs0 hmem
     subst hpt
-    have hs := h.1.sorted
+    have hs := hs0
     rw [Part.times, hsplit] at hs
     have hgp : getPoint s.points p.t = some p := by rw [hsplit]; exact getPoint_of_split hs
     simp only [hgp, hmem, if_true]
@@ -177,15 +177,15 @@ theorem iterPrev_spec {s : Part} (h : Good s) {t : Int} (ht : 0 ≤ t) (cls : Op
       cases eq with
       | true =>
         simp only [if_true]
-        exact walk_prev s.points h.1.sorted h.2 _ l r p hsplit (by rw [hsplit]; simp; omega)
+        exact walk_prev s.points hs0 hl0 _ l r p hsplit (by rw [hsplit]; simp; omega)
       | false =>
         simp only [Bool.false_eq_true, if_false, List.nil_append]
-        rw [prev_of_links (hsplit ▸ h.2)]
+        rw [prev_of_links (hsplit ▸ hl0)]
         rcases List.eq_nil_or_concat l with rfl | ⟨l', a, rfl⟩
         · simp [lastT, walk_none]
         · simp only [List.concat_eq_append] at *
           rw [lastT_concat]
-          have := walk_prev s.points h.1.sorted h.2 (s.points.length + 1) l' (p :: r) a (by simp [hsplit])
+          have := walk_prev s.points hs0 hl0 (s.points.length + 1) l' (p :: r) a (by simp [hsplit])
             (by rw [hsplit]; simp; omega)
           simpa using this
     rw [hw]
@@ -195,7 +195,7 @@ theorem iterPrev_spec {s : Part} (h : Good s) {t : Int} (ht : 0 ≤ t) (cls : Op
   · have : getPoint s.points t = none := getPoint_none_of_not_mem hmem
     simp [this, hmem, pure, Except.pure]
 
-theorem iterNext_spec {s : Part} (h : Good s) {t : Int} (ht : 0 ≤ t) (cls : Option Nat) (eq incl : Bool) :
+theorem iterNext_spec' {s : Part} (hs0 : s.times.Pairwise (· < ·)) (hl0 : LinksFrom none s.points) {t : Int} (ht : 0 ≤ t) (cls : Option Nat) (eq incl : Bool) :
     iterLinks s (·.next) t cls eq incl
       = .ok (if t ∈ s.times then
           .objs ((nextPoints s.points t eq).flatMap fun p => iterReg p.starting cls incl)
@@ -204,9 +204,9 @@ theorem iterNext_spec {s : Part} (h : Good s) {t : Int} (ht : 0 ≤ t) (cls : Op
   unfold iterLinks
   simp only [hneg, if_false]
   by_cases hmem : t ∈ s.times
-  · obtain ⟨l, p, r, hsplit, hpt, -, -⟩ := split_at_time h.1.sorted hmem
+  · obtain ⟨l, p, r, hsplit, hpt, -, -⟩ := split_at_time hs0 hmem
     subst hpt
-    have hs := h.1.sorted
+    have hs := hs0
     rw [Part.times, hsplit] at hs
     have hgp : getPoint s.points p.t = some p := by rw [hsplit]; exact getPoint_of_split hs
     simp only [hgp, hmem, if_true]
@@ -215,14 +215,14 @@ theorem iterNext_spec {s : Part} (h : Good s) {t : Int} (ht : 0 ≤ t) (cls : Op
       cases eq with
       | true =>
         simp only [if_true]
-        exact walk_next s.points h.1.sorted h.2 _ l r p hsplit (by rw [hsplit]; simp; omega)
+        exact walk_next s.points hs0 hl0 _ l r p hsplit (by rw [hsplit]; simp; omega)
       | false =>
         simp only [Bool.false_eq_true, if_false, List.nil_append]
-        rw [next_of_links (hsplit ▸ h.2)]
+        rw [next_of_links (hsplit ▸ hl0)]
         cases r with
         | nil => simp [headT, walk_none]
         | cons b r' =>
-          have := walk_next s.points h.1.sorted h.2 (s.points.length + 1) (l ++ [p]) r' b (by simp [hsplit])
+          have := walk_next s.points hs0 hl0 (s.points.length + 1) (l ++ [p]) r' b (by simp [hsplit])
             (by rw [hsplit]; simp; omega)
           simpa [headT] using this
     rw [hw]
@@ -230,6 +230,18 @@ theorem iterNext_spec {s : Part} (h : Good s) {t : Int} (ht : 0 ≤ t) (cls : Op
     rw [hsplit, filter_split_next hs eq]
   · have : getPoint s.points t = none := getPoint_none_of_not_mem hmem
     simp [this, hmem, pure, Except.pure]
+
+theorem iterPrev_spec {s : Part} (h : Good s) {t : Int} (ht : 0 ≤ t) (cls : Option Nat) (eq incl : Bool) :
+    iterLinks s (·.prev) t cls eq incl
+      = .ok (if t ∈ s.times then
+          .objs ((prevPoints s.points t eq).flatMap fun p => iterReg p.starting cls incl)
+        else .noPoint) := iterPrev_spec' h.1.sorted h.2 ht cls eq incl
+
+theorem iterNext_spec {s : Part} (h : Good s) {t : Int} (ht : 0 ≤ t) (cls : Option Nat) (eq incl : Bool) :
+    iterLinks s (·.next) t cls eq incl
+      = .ok (if t ∈ s.times then
+          .objs ((nextPoints s.points t eq).flatMap fun p => iterReg p.starting cls incl)
+        else .noPoint) := iterNext_spec' h.1.sorted h.2 ht cls eq incl
 
 -- ------------------------------------------------------------------ iter_all: the index slice is a time range
 
